@@ -2,12 +2,12 @@
 """Generates engines/mutex/selftest.json: each mutant is produced by a textual replacement in the scratch worktree
 (/tmp/wt_mutex, hooks applied), captured as a unified diff relative to the hooked tree, and reverted."""
 import json, os, subprocess, sys
-WT = os.environ.get("MUTEX_WT", "/tmp/wt_mutex")
+WT = os.environ.get("MUTEX_WT", "/var/tmp/mutex_wt")   # a copy of /repo's include/ + source/ (hooks applied)
 M = []
 
 
-def mut(name, expect, path, old, new, what):
-    M.append(dict(name=name, expect=expect, path=path, old=old, new=new, what=what))
+def mut(name, expect, path, old, new, what, prop="C15"):
+    M.append(dict(name=name, expect=expect, path=path, old=old, new=new, what=what, prop=prop))
 
 
 mut("v1_unlock_store_instead_of_cas", "violation", "include/unifex/detail/atomic_intrusive_queue.hpp",
@@ -81,6 +81,23 @@ mut("v1_resume_without_pop", "violation", "source/async_mutex_v1.cpp",
     else { pendingQueue_.push_front(extra); }
   }""",
     "v1 unlock resumes two waiters of a fresh batch at once (double hand-off)")
+RESUME_OLD = """            if (try_complete(op)) {
+              op->forwardingOp_.start(*op);
+            } else {"""
+RESUME_NEW = """            if (try_complete(op)) {
+              op->forward_set_value();
+            } else {"""
+mut("c11_resume_completes_inline", "violation", "include/unifex/v2/async_mutex.hpp", RESUME_OLD, RESUME_NEW,
+    "resume_ of a popped waiter completes the receiver inline on the unlocking thread instead of re-scheduling onto the "
+    "receiver's scheduler (breaks is_always_scheduler_affine)", prop="C11")
+mut("c11_resume_completes_inline_is_not_C15", "clean", "include/unifex/v2/async_mutex.hpp", RESUME_OLD, RESUME_NEW,
+    "the same change leaves mutual exclusion / no-lost-waiter intact: the C15 check stays clean (property separation)", prop="C15")
+mut("c11_forwarder_skips_scheduler", "violation", "include/unifex/detail/completion_forwarder.hpp",
+    """    started_ = true;
+    unifex::start(inner_.get());""",
+    """    started_ = true;
+    outer.forward_set_value();""",
+    "completion_forwarder builds the schedule operation but forwards the value inline without starting it", prop="C11")
 mut("benign_hook_removed", "clean", "source/async_mutex_v2.cpp",
     """    UNIFEX_VERIF_YIELD("mutex.v2.empty");\n""", "", "a schedule-point hook removed (benign)")
 mut("benign_stronger_order_and_comment", "clean", "source/async_mutex_v2.cpp",
@@ -108,6 +125,6 @@ for m in M:
     d = subprocess.run(["diff", "-u", "--label", "a/" + m["path"], "--label", "b/" + m["path"], base, p], stdout=subprocess.PIPE, text=True).stdout
     os.remove(base)
     open(p, "w").write(src)
-    out.append(dict(name=m["name"], what=m["what"], expect=m["expect"], patch=d))
+    out.append(dict(name=m["name"], what=m["what"], expect=m["expect"], prop=m["prop"], patch=d))
 json.dump(out, open(os.path.join(os.path.dirname(os.path.abspath(__file__)), "selftest.json"), "w"), indent=1)
 print("wrote", len(out), "mutants")
